@@ -51,6 +51,7 @@ type FuncContract struct {
 	File      string
 	SafetyOff bool
 	Unroll    int
+	Options   map[string]bool
 	Lets      []*LetDef
 }
 
@@ -85,7 +86,13 @@ type LockDef struct {
 	Protects []string
 }
 
+type ModSet struct {
+	Params []string
+	Items  []string
+}
+
 type ContractDB struct {
+	ModSets   map[string]*ModSet
 	Locks     map[string]*LockDef
 	Funcs     map[string]*FuncContract
 	Order     []string
@@ -176,6 +183,22 @@ func (db *ContractDB) loadFile(path string, extern bool) error {
 				}
 			}
 			db.Preds[m[1]] = &PredDef{Name: m[1], Params: ps, Body: x, Text: m[3]}
+		case word == "modset":
+			// modset Name(a, b) := item, item, ...
+			m := regexp.MustCompile(`^(\w+)\(([^)]*)\)\s*:=\s*(.*)$`).FindStringSubmatch(rest)
+			if m == nil {
+				return fmt.Errorf("%s:%d: bad modset", path, ln)
+			}
+			ms := &ModSet{}
+			for _, p := range strings.Split(m[2], ",") {
+				if p = strings.TrimSpace(p); p != "" {
+					ms.Params = append(ms.Params, p)
+				}
+			}
+			for _, it := range db.expandModItems(splitTopComma(m[3])) {
+				ms.Items = append(ms.Items, it)
+			}
+			db.ModSets[m[1]] = ms
 		case word == "ghostfield":
 			// ghostfield Conn.g_rd int
 			f := strings.Fields(rest)
@@ -230,12 +253,19 @@ func (db *ContractDB) loadFile(path string, extern bool) error {
 			cur.Pure = true
 		case word == "nosafety":
 			cur.SafetyOff = true
+		case word == "option":
+			if cur.Options == nil {
+				cur.Options = map[string]bool{}
+			}
+			for _, o := range strings.Fields(rest) {
+				cur.Options[o] = true
+			}
 		case word == "unroll":
 			cur.Unroll, _ = strconv.Atoi(rest)
 		case word == "panics":
 			cur.Panics = append(cur.Panics, strings.Trim(rest, `"`))
 		case word == "modifies":
-			for _, it := range splitTopComma(rest) {
+			for _, it := range db.expandModItems(splitTopComma(rest)) {
 				it = strings.TrimSpace(it)
 				if it == "" {
 					continue
@@ -302,7 +332,7 @@ func (db *ContractDB) loadFile(path string, extern bool) error {
 					cur.LoopDec[n] = c
 				}
 			case "modifies":
-				for _, it := range splitTopComma(m[4]) {
+				for _, it := range db.expandModItems(splitTopComma(m[4])) {
 					it = strings.TrimSpace(it)
 					if it == "*" {
 						cur.LoopMod[n] = append(cur.LoopMod[n], ast.NewIdent("*"))
@@ -380,7 +410,7 @@ func splitTopComma(s string) []string {
 }
 
 func newContractDB() *ContractDB {
-	return &ContractDB{Funcs: map[string]*FuncContract{}, Preds: map[string]*PredDef{}, SpecFns: map[string]*SpecFn{}, Immutable: map[string]bool{}, Locks: map[string]*LockDef{}}
+	return &ContractDB{Funcs: map[string]*FuncContract{}, Preds: map[string]*PredDef{}, SpecFns: map[string]*SpecFn{}, Immutable: map[string]bool{}, Locks: map[string]*LockDef{}, ModSets: map[string]*ModSet{}}
 }
 
 func (fc *FuncContract) hasTag(t string) bool {
@@ -390,4 +420,32 @@ func (fc *FuncContract) hasTag(t string) bool {
 		}
 	}
 	return false
+}
+
+// expandModItems replaces references to modsets by their items.
+func (db *ContractDB) expandModItems(items []string) []string {
+	var out []string
+	re := regexp.MustCompile(`^(\w+)\((.*)\)$`)
+	for _, it := range items {
+		it = strings.TrimSpace(it)
+		if it == "" {
+			continue
+		}
+		if m := re.FindStringSubmatch(it); m != nil {
+			if ms, ok := db.ModSets[m[1]]; ok {
+				args := splitTopComma(m[2])
+				for _, x := range ms.Items {
+					for i, p := range ms.Params {
+						if i < len(args) {
+							x = regexp.MustCompile(`\b`+regexp.QuoteMeta(p)+`\b`).ReplaceAllString(x, strings.TrimSpace(args[i]))
+						}
+					}
+					out = append(out, x)
+				}
+				continue
+			}
+		}
+		out = append(out, it)
+	}
+	return out
 }
